@@ -3,6 +3,7 @@ package main
 import (
 	"fmt"
 	"go/token"
+	"go/types"
 	"strings"
 
 	"golang.org/x/tools/go/ssa"
@@ -387,7 +388,12 @@ func c14Watermark(c *Ctx) {
 		}
 		c.check(ok, "watermark-order", "writePruneWatermark → cleanupObsoleteWALs", pos, "obsolete WAL files are removed only after the watermark is durable", "obsolete WAL files can be removed before the prune watermark is durable: a crash would revive pruned entries")
 		if wm != nil && len(wm.Args()) >= 2 {
-			c.check(strings.HasSuffix(term(wm.Args()[1]), "s.prunedUpToHeight"), "watermark-order", "watermark value", p.Pos(wm.Pos()), "watermark = prunedUpToHeight", "the persisted watermark is not prunedUpToHeight")
+			wf, excl := c14WatermarkField(p)
+			want := "s." + wf
+			if excl {
+				want = "(s." + wf + " - 1)"
+			}
+			c.check(wf != "" && strings.HasSuffix(term(wm.Args()[1]), want), "watermark-order", "watermark value", p.Pos(wm.Pos()), "the persisted watermark is the highest pruned height ("+want+")", "the persisted watermark is "+term(wm.Args()[1])+", not the highest pruned height "+want)
 		}
 	} else {
 		c.und("watermark-order", "removeObsoleteWALFiles", "", "anchor not found")
@@ -397,6 +403,47 @@ func c14Watermark(c *Ctx) {
 
 func c14PruneFilter(c *Ctx) {
 	p := c.P
+	// the watermark is identified by role: the one Height-typed field of the store; its design — inclusive ("highest pruned
+	// height", filter h <= W) or exclusive ("first live height", filter h < W) — is read off the store in pruneLiveEntriesUpTo
+	wf, excl := c14WatermarkField(p)
+	if wf == "" {
+		c.und("prune-filter-agreement", "tendermintWALStore watermark", "", "the store's Height-typed watermark field / its update in pruneLiveEntriesUpTo was not recognised")
+		return
+	}
+	cmp := " <= s." + wf
+	if excl {
+		cmp = " < s." + wf
+	}
+	// (zero-watermark) a store that has never pruned keeps everything: with an inclusive watermark the zero value of the field
+	// reads as "pruned through height 0" and every entry of height 0 is dropped silently although Flush succeeds (defect F22);
+	// an inclusive design is accepted only when the filter is additionally guarded by a "has pruned" flag of the store
+	if !excl {
+		guarded := true
+		for _, fnn := range []string{"SetWALEntry", "applyEncodedRecord", "updateIndexesFromCommittedRecords"} {
+			f := wsFunc(p, "tendermintWALStore", fnn)
+			if f == nil {
+				continue
+			}
+			allInstrs(f, func(in ssa.Instruction) {
+				b, ok := in.(*ssa.BinOp)
+				if !ok || b.Op != token.LEQ || !strings.HasSuffix(term(b.Y), "s."+wf) {
+					return
+				}
+				flag := false
+				for _, fct := range factsAt(in) {
+					if u, isU := fct.Cond.(*ssa.UnOp); isU && strings.HasSuffix(u.Type().String(), "bool") && strings.HasPrefix(term(u), "s.") && !strings.HasSuffix(term(u), "closed") {
+						flag = true
+					}
+				}
+				if !flag {
+					guarded = false
+				}
+			})
+		}
+		c.check(guarded, "zero-watermark", "tendermintWALStore."+wf, "", "a store that never pruned drops nothing", "the prune filter is `height <= "+wf+"` and the zero value of "+wf+" means both \"nothing pruned\" and \"pruned through height 0\": on a fresh store every entry of height 0 is discarded by SetWALEntry although Flush reports success, and nothing of that height can be recovered")
+	} else {
+		c.ok("zero-watermark", "tendermintWALStore."+wf, "", "exclusive watermark: its zero value filters no height")
+	}
 	for _, sp := range []struct{ fn, callee string }{
 		{"updateIndexesFromCommittedRecords", "addLiveEntry"},
 		{"applyEncodedRecord", "addLiveEntry"},
@@ -414,14 +461,14 @@ func c14PruneFilter(c *Ctx) {
 		s := dss[0].Site
 		ok, miss := true, ""
 		for _, ds := range dss {
-			if o, m := everyDisjunctHas(p.mustHoldDeep(ds), []string{"^!", "GetHeight() <= s.prunedUpToHeight"}); !o {
+			if o, m := everyDisjunctHas(p.mustHoldDeep(ds), []string{"^!", "GetHeight()" + cmp}); !o {
 				ok, miss, s = false, m, ds.Site
 			}
 		}
 		c.check(ok, "prune-filter-agreement", sp.fn+" → addLiveEntry", p.Pos(s.Pos()), "entries at or below the watermark are skipped", "entries at or below the prune watermark are no longer filtered: "+miss)
 	}
 	// SetWALEntry / DeleteWALEntries append only above the watermark
-	for _, sp := range []struct{ fn, pat string }{{"SetWALEntry", "GetHeight() <= s.prunedUpToHeight"}, {"DeleteWALEntries", "height <= s.prunedUpToHeight"}} {
+	for _, sp := range []struct{ fn, pat string }{{"SetWALEntry", "GetHeight()" + cmp}, {"DeleteWALEntries", "height" + cmp}} {
 		f := wsFunc(p, "tendermintWALStore", sp.fn)
 		if f == nil {
 			c.und("prune-filter-agreement", sp.fn, "", "anchor not found")
@@ -446,15 +493,15 @@ func c14PruneFilter(c *Ctx) {
 		n := 0
 		allInstrs(f, func(in ssa.Instruction) {
 			st, ok := in.(*ssa.Store)
-			if !ok || !strings.HasSuffix(term(st.Addr), "s.prunedUpToHeight") {
+			if !ok || !strings.HasSuffix(term(st.Addr), "s."+wf) {
 				return
 			}
 			n++
-			ok2, miss := everyDisjunctHas(p.mustHoldAt(in), []string{"^!", "height <= s.prunedUpToHeight"})
-			c.check(ok2, "prune-filter-agreement", "prunedUpToHeight monotone", p.Pos(posOf(in, f)), "watermark only raised", "the in-memory prune watermark can be lowered: "+miss)
+			ok2, miss := everyDisjunctHas(p.mustHoldAt(in), []string{"^!", "height" + cmp})
+			c.check(ok2, "prune-filter-agreement", wf+" monotone", p.Pos(posOf(in, f)), "watermark only raised", "the in-memory prune watermark can be lowered: "+miss)
 		})
 		if n == 0 {
-			c.und("prune-filter-agreement", "pruneLiveEntriesUpTo", p.Pos(fnPos(f)), "store to prunedUpToHeight not found")
+			c.und("prune-filter-agreement", "pruneLiveEntriesUpTo", p.Pos(fnPos(f)), "store to "+wf+" not found")
 		}
 	}
 	// other writers of prunedUpToHeight
@@ -468,17 +515,57 @@ func c14PruneFilter(c *Ctx) {
 				return
 			}
 			fa, ok := st.Addr.(*ssa.FieldAddr)
-			if !ok || fieldName(fa.X.Type(), fa.Field) != "prunedUpToHeight" || !isNamed(fa.X.Type(), "consensus/walstore", "tendermintWALStore") {
+			if !ok || fieldName(fa.X.Type(), fa.Field) != wf || !isNamed(fa.X.Type(), "consensus/walstore", "tendermintWALStore") {
 				return
 			}
 			if _, fresh := fa.X.(*ssa.Alloc); fresh {
 				return
 			}
 			nm := rootOf(fn).Name()
-			c.check(nm == "pruneLiveEntriesUpTo", "prune-filter-agreement", "prunedUpToHeight ← "+nm, p.Pos(posOf(in, fn)), "owner", "prunedUpToHeight is written outside pruneLiveEntriesUpTo")
+			c.check(nm == "pruneLiveEntriesUpTo", "prune-filter-agreement", wf+" ← "+nm, p.Pos(posOf(in, fn)), "owner", wf+" is written outside pruneLiveEntriesUpTo")
 		})
 	}
 	c.floor("prune-filter-agreement", 6)
+}
+
+// c14WatermarkField: the Height-typed field of tendermintWALStore and whether it is kept exclusive (stored as height+1).
+func c14WatermarkField(p *Prog) (string, bool) {
+	t := p.lookupType("consensus/walstore", "tendermintWALStore")
+	if t == nil {
+		return "", false
+	}
+	st, ok := t.Underlying().(*types.Struct)
+	if !ok {
+		return "", false
+	}
+	name := ""
+	for i := 0; i < st.NumFields(); i++ {
+		if strings.HasSuffix(st.Field(i).Type().String(), "consensus/types.Height") {
+			if name != "" {
+				return "", false
+			}
+			name = st.Field(i).Name()
+		}
+	}
+	f := wsFunc(p, "tendermintWALStore", "pruneLiveEntriesUpTo")
+	if name == "" || f == nil {
+		return "", false
+	}
+	excl, found := false, false
+	allInstrs(f, func(in ssa.Instruction) {
+		if s, ok := in.(*ssa.Store); ok && strings.HasSuffix(term(s.Addr), "s."+name) {
+			found = true
+			if b, isB := s.Val.(*ssa.BinOp); isB && b.Op == token.ADD {
+				if k, isK := b.Y.(*ssa.Const); isK && k.Value != nil && k.Int64() == 1 {
+					excl = true
+				}
+			}
+		}
+	})
+	if !found {
+		return "", false
+	}
+	return name, excl
 }
 
 func c14Tail(c *Ctx) {
